@@ -138,3 +138,9 @@ package lib
 //@   loop 1 invariant[inbounds] 0 <= offset && offset <= len(b)
 //@   loop 1 decreases len(b) - offset
 //@   loop 1 iterensures[maxfield] wireType == 2 ==> l <= protoMaxFieldBytes
+
+// ---- C06: same-block duplicates ---------------------------------------------------------------------------
+// Found answers whether the key was seen before and, either way, leaves it marked as seen
+//@ func (*DeDuplicator[string]).Found
+//@   ensures[seen] result == old(indom(d.m, k)) && indom(d.m, k)
+//@   ensures[keeps] forall q string :: old(indom(d.m, q)) ==> indom(d.m, q)
